@@ -200,6 +200,24 @@ impl TableSpec {
         if at < self.rows.len() { out.push(self.batch_of(&self.rows[at..])); }
         out
     }
+    /// 6–12 batches, NULLs of one nullable column (chosen deterministically from the table's content) clustered at the end or the
+    /// start, so that whole trailing / leading batches are all-NULL in that column (layout `mem8c`)
+    pub fn clustered_batches(&self) -> Vec<RecordBatch> {
+        let n = self.rows.len();
+        if n == 0 { return self.batches(); }
+        let nullable: Vec<usize> = (0..self.cols.len()).filter(|&c| self.rows.iter().any(|r| r[c].is_null()) && self.rows.iter().any(|r| !r[c].is_null())).collect();
+        let mut rows = self.rows.clone();
+        if !nullable.is_empty() {
+            let h = n + self.cols.len() * 7 + self.name.len();
+            let col = nullable[h % nullable.len()];
+            let nulls_first = (h / nullable.len()) % 2 == 1;
+            rows.sort_by_key(|r| r[col].is_null() != nulls_first);   // stable: keeps the relative order inside the two clusters
+        }
+        let k = (6 + n % 7).min(n);
+        let mut out = vec![]; let mut at = 0;
+        for b in 0..k { let hi = n * (b + 1) / k; out.push(self.batch_of(&rows[at..hi])); at = hi; }
+        out
+    }
     pub fn single_batch(&self) -> Vec<RecordBatch> { vec![self.batch_of(&self.rows)] }
     pub fn to_json(&self) -> Value {
         json!({"name": self.name, "cuts": self.cuts,
